@@ -20,7 +20,12 @@ import numpy as np
 
 from harness import tlc
 
-DTYPES = ["float64", "int32", "float32", "int64", "complex128", "uint8"]
+DTYPES = ["float64", "int32", "float32", "int64", "complex128", "uint8", "struct"]
+STRUCT = [("a", "<f8"), ("b", "<i4")]           # "struct": rows of a structured (record) dtype
+
+
+def np_dtype(name):
+    return np.dtype(STRUCT) if name == "struct" else np.dtype(name)
 
 
 def mc_cfg(vals, maxlen, maxcalls, hf, dirty, init, invs, props=("Refines",), sync=False):
@@ -48,7 +53,13 @@ def pattern(v, size, dtype):
     """flattened (C order) content of the batch with id v: position dependent, so that a batch written in another
     element order, shifted or torn decodes to -1"""
     pos = np.arange(size)
-    if np.dtype(dtype) == np.uint8:
+    dtype = np_dtype(dtype) if isinstance(dtype, str) else np.dtype(dtype)
+    if dtype.names:
+        out = np.zeros(size, dtype=dtype)
+        out["a"] = v * STRIDE + pos
+        out["b"] = pos
+        return out
+    if dtype == np.uint8:
         return ((v * 37 + pos) % 256).astype(dtype)
     return (v * STRIDE + pos).astype(dtype)
 
@@ -56,11 +67,12 @@ def pattern(v, size, dtype):
 def batch_array(sc, v):
     shape = (sc["bs"],) + tuple(sc["row_shape"])
     a = pattern(v, int(np.prod(shape)), sc["dtype"]).reshape(shape)
+    dt = np_dtype(sc["dtype"])
     layout = sc.get("layout", "C")
     if layout == "F":            # same values, column-major memory
         a = np.asfortranarray(a)
     elif layout == "strided":    # a non-contiguous view
-        big = np.zeros((2 * shape[0],) + shape[1:], dtype=sc["dtype"])
+        big = np.zeros((2 * shape[0],) + shape[1:], dtype=dt)
         big[::2] = a
         a = big[::2]
     return a
@@ -75,6 +87,13 @@ def decode_batches(arr, bs):
     out = []
     for i in range(len(arr) // bs):
         b = np.ascontiguousarray(arr[i * bs:(i + 1) * bs]).reshape(-1)
+        if arr.dtype.kind == "V":          # structured rows (or raw void items: not the dtype that was written)
+            if arr.dtype.names != ("a", "b"):
+                out.append(-1)
+                continue
+            c = int(b[0]["a"]) // STRIDE if b[0]["a"] >= 0 else -1
+            out.append(int(c) if c >= 0 and np.array_equal(b, pattern(c, b.size, arr.dtype)) else -1)
+            continue
         first = int(np.real(b[0]))
         if arr.dtype == np.uint8:
             cands = [v for v in range(0, 64) if (v * 37) % 256 == first]
@@ -131,7 +150,7 @@ class Runner:
             pool.flush()                             # initialised and flushed (init is never empty at this level)
             self.obj = pool
             return
-        data = np.concatenate(init) if init else np.empty((0,) + tuple(sc["row_shape"]), dtype=sc["dtype"])
+        data = np.concatenate(init) if init else np.empty((0,) + tuple(sc["row_shape"]), dtype=np_dtype(sc["dtype"]))
         arr = st.NpyArray(fn, array=data)        # append + flush: initialised and flushed
         self.obj = arr if sc["level"] == "array" else st.NpyStore(arr, self.bs)
 
@@ -200,7 +219,22 @@ class Runner:
             o.close()
             self.obj = self.st.NpyStore(self.fn, bs, n_batches=a)
         elif op == "pickle":
-            self.obj = pickle.loads(pickle.dumps(o))
+            data = pickle.dumps(o)
+            if self.sc.get("decoy"):
+                # unpickled in a working directory that holds ANOTHER .npy file of the same base name: the copy belongs to
+                # the file it was pickled with
+                d = self.fn[:-4] + "_cwd"
+                os.makedirs(d, exist_ok=True)
+                np.save(os.path.join(d, os.path.basename(self.fn)), np.arange(7, dtype=float))
+                cwd = os.getcwd()
+                os.chdir(d)
+                try:
+                    self.obj = pickle.loads(data)
+                finally:
+                    os.chdir(cwd)
+                    shutil.rmtree(d, ignore_errors=True)
+            else:
+                self.obj = pickle.loads(data)
         else:
             raise ValueError(op)
 
@@ -409,6 +443,7 @@ def scenarios(ctx, workdir):
         sc = dict(level=level, dtype=rnd.choice(DTYPES), row_shape=rnd.choice([[], [2], [3, 2], [1]]),
                   bs=rnd.choice([1, 2, 3, 5]), init=[1, 2][:rnd.randint(0, 2)])
         sc["layout"] = rnd.choice(["C", "C", "F", "strided"])
+        sc["decoy"] = i % 2 == 1
         partial = level == "store" and i % 4 == 0
         sc["calls"] = valid_histories(rnd, rnd.randint(2, 5 if ctx.quick else 7), 4, len(sc["init"]), partial=partial)
         hists.append(normalise(sc))
